@@ -301,6 +301,55 @@ func readerFamily() []famCase {
 		s := rec("FamV", avro.SchemaRecordField{Name: "a", Type: arr(prim("long"))}, avro.SchemaRecordField{Name: "tail", Type: prim("long")})
 		out = append(out, famCase{s, &Datum{K: "record", Items: []*Datum{{K: "array", Items: items}, long(v)}}})
 	}
+	// nesting "to any depth": chains of nullable repeated nested records (three schema nodes per
+	// level), of plain nested records, of arrays of arrays and of maps of maps
+	un := func(branch int, inner *Datum) *Datum { return &Datum{K: "union", Branch: branch, Inner: inner} }
+	for _, levels := range []int{5, 9, 14, 31} {
+		var mk func(k int) (avro.Schema, *Datum)
+		mk = func(k int) (avro.Schema, *Datum) {
+			if k == levels {
+				return rec(fmt.Sprintf("Leaf%d", levels), avro.SchemaRecordField{Name: "v", Type: prim("long")}), &Datum{K: "record", Items: []*Datum{long(int64(1000 + k))}}
+			}
+			cs, cd := mk(k + 1)
+			next := avro.Schema{Type: "union", Union: []avro.Schema{prim("null"), arr(cs)}}
+			s := rec(fmt.Sprintf("Node%d_%d", levels, k), avro.SchemaRecordField{Name: "v", Type: prim("long")}, avro.SchemaRecordField{Name: "next", Type: next})
+			return s, &Datum{K: "record", Items: []*Datum{long(int64(k)), un(1, &Datum{K: "array", Items: []*Datum{cd}})}}
+		}
+		cs, cd := mk(0)
+		out = append(out, famCase{cs, cd})
+	}
+	for _, levels := range []int{18, 40} {
+		var s avro.Schema = rec(fmt.Sprintf("Plain%d_%d", levels, levels), avro.SchemaRecordField{Name: "v", Type: prim("string")})
+		d := &Datum{K: "record", Items: []*Datum{{K: "string", Bytes: []byte("bottom")}}}
+		for k := levels - 1; k >= 0; k-- {
+			s = rec(fmt.Sprintf("Plain%d_%d", levels, k), avro.SchemaRecordField{Name: "in", Type: s}, avro.SchemaRecordField{Name: "k", Type: prim("long")})
+			d = &Datum{K: "record", Items: []*Datum{d, long(int64(k))}}
+		}
+		out = append(out, famCase{s, d})
+		as, ad := prim("long"), long(7)
+		ms, md := prim("string"), &Datum{K: "string", Bytes: []byte("x")}
+		for k := 0; k < levels; k++ {
+			as, ad = arr(as), &Datum{K: "array", Items: []*Datum{ad}}
+			ms, md = mp(ms), &Datum{K: "map", Keys: [][]byte{[]byte(fmt.Sprintf("k%d", k))}, Items: []*Datum{md}}
+		}
+		out = append(out, famCase{rec(fmt.Sprintf("Deep%d", levels), avro.SchemaRecordField{Name: "a", Type: as}, avro.SchemaRecordField{Name: "m", Type: ms}),
+			&Datum{K: "record", Items: []*Datum{ad, md}}})
+	}
+	// wide records: more fields than any machine word has bits (targets drop some of them)
+	for _, nf := range []int{64, 65, 70, 130, 300} {
+		var fs []avro.SchemaRecordField
+		var items []*Datum
+		for k := 0; k < nf; k++ {
+			if k%3 == 2 {
+				fs = append(fs, avro.SchemaRecordField{Name: fmt.Sprintf("s%03d", k), Type: prim("string")})
+				items = append(items, &Datum{K: "string", Bytes: []byte(fmt.Sprintf("str-%d", k))})
+			} else {
+				fs = append(fs, avro.SchemaRecordField{Name: fmt.Sprintf("f%03d", k), Type: prim("long")})
+				items = append(items, long(int64(1000+k)))
+			}
+		}
+		out = append(out, famCase{rec(fmt.Sprintf("Wide%d", nf), fs...), &Datum{K: "record", Items: items}})
+	}
 	return out
 }
 
